@@ -1,4 +1,5 @@
 import QeepProofs.Heap
+import QeepProps.C20
 /-!
 # C08 — gradient tracking propagates, isolates and retires exactly as specified
 
@@ -149,6 +150,109 @@ theorem forward_value_ignores_flags (x : Nat) (v : Out (Tensor α)) (rule : Nat 
     simp [Heap.val]
   | err => simp [liftOut, bind, StateT.bind, Out.bind] at h
   | panic => simp [liftOut, bind, StateT.bind, Out.bind] at h
+
+end
+
+/-! ### what a back-propagation leaves behind (uses the graph theorems of C01/C20) -/
+section
+variable {α : Type} [Scalar α]
+open C01 C20
+
+theorem markDirty_dirty_inside (ns : List Nat) : ∀ (H : Heap α) (n : Nat), n ∈ ns → n < H.size →
+    (markDirty H ns).dirty n = true := by
+  unfold markDirty
+  induction ns with
+  | nil => intro H n h; simp at h
+  | cons m ms ih =>
+    intro H n hn hlt
+    simp only [List.foldl_cons]
+    by_cases hmem : n ∈ ms
+    · exact ih _ n hmem (by rw [setCtx_size]; exact hlt)
+    · have hnm : n = m := by
+        rcases List.mem_cons.mp hn with h | h
+        · exact h
+        · exact absurd h hmem
+      subst hnm
+      have := markDirty_ctx_outside (H.setCtx n { H.ctx n with dirty := true }) ms n hmem
+      unfold markDirty at this
+      unfold Heap.dirty
+      rw [this, setCtx_ctx_eq _ _ _ hlt]
+
+theorem writeBack_dirty (H : Heap α) (G : Nat → Option (Tensor α)) (n : Nat) :
+    (writeBack H G).dirty n = H.dirty n := by
+  unfold writeBack Heap.dirty Heap.ctx
+  simp only [Array.getElem?_mapIdx]
+  cases H[n]? <;> rfl
+
+/-- **Every tensor of the walk is spent afterwards**, whatever the outcome of the walk -/
+theorem bp_marks_spent (bm : BMode) (H : Heap α) (root : Nat) (htr : H.tracked root = true) (n : Nat)
+    (hn : n ∈ backwardOrder H root) (hlt : n < H.size) : (backprop bm H root).heap.dirty n = true := by
+  have hnt : (!H.tracked root) = false := by simp [htr]
+  unfold backprop
+  simp only [hnt, Bool.false_eq_true, if_false]
+  split
+  · simp only []; rw [writeBack_dirty]; exact markDirty_dirty_inside _ H n hn hlt
+  · exact markDirty_dirty_inside _ H n hn hlt
+  · exact markDirty_dirty_inside _ H n hn hlt
+
+theorem sums_some {D : Type} {add : D → D → Out D} : ∀ {a : Option D} {l : List D} {b : Option D},
+    Sums add a l b → (a ≠ none ∨ l ≠ []) → b ≠ none := by
+  intro a l b h
+  induction h with
+  | nil a => intro h; rcases h with h | h; exact h; exact absurd rfl h
+  | first _ ih => intro _; exact ih (Or.inl (by simp))
+  | next _ _ ih => intro _; exact ih (Or.inl (by simp))
+
+/-- **A successful back-propagation from a tracked root gives a gradient to the root and to every tracked tensor
+    it was computed from** (the members of the walk: the root, and tracked targets of back edges of members) … -/
+theorem bp_gives_gradients (bm : BMode) (H : Heap α) (root : Nat) (hdag : HeapDag H) (htr : H.tracked root = true)
+    (hok : (backprop bm H root).status = .ok ()) (n : Nat) (hn : n ∈ backwardOrder H root) (hlt : n < H.size) :
+    (backprop bm H root).heap.grad n ≠ none := by
+  obtain ⟨seedG, final, hseed, hfin, hsums, hdef, _⟩ := backprop_adjoint bm H root hdag htr hok
+  rw [hfin n hlt]
+  apply sums_some (hsums n)
+  rcases order_members_tracked H root hdag n hn with rfl | ⟨u, hu, hsu⟩
+  · left
+    unfold accumG at hseed
+    split at hseed
+    · cases hseed; simp [updStore]
+    · rename_i old _
+      cases ha : vArith Arith.add old (vPow (H.val n) Scalar.zero) with
+      | ok s => rw [ha] at hseed; simp only [Out.bind] at hseed; cases hseed; simp [updStore]
+      | err => rw [ha] at hseed; simp [Out.bind] at hseed
+      | panic => rw [ha] at hseed; simp [Out.bind] at hseed
+  · right
+    unfold succs at hsu
+    obtain ⟨hm, ht⟩ := List.mem_filter.mp hsu
+    obtain ⟨e, he, rfl⟩ := List.mem_map.mp hm
+    have hp : (u, (e.target, e.rule)) ∈ bpPairs H root := by
+      unfold bpPairs allPairs
+      exact List.mem_flatMap.mpr ⟨u, hu, List.mem_map.mpr ⟨(e.target, e.rule),
+        by unfold edgesOf; exact List.mem_map.mpr ⟨e, he, rfl⟩, rfl⟩⟩
+    obtain ⟨gy, g, hgy, hg⟩ := hdef _ hp ht
+    intro hnil
+    have hmem : g ∈ contrib (fun r gy => evalRule bm (markDirty H (backwardOrder H root)) gy r) H.tracked final
+        (bpPairs H root) e.target := by
+      unfold contrib
+      refine List.mem_filterMap.mpr ⟨(u, (e.target, e.rule)), hp, ?_⟩
+      simp only [ht, true_and, if_true]
+      simp only [] at hgy hg
+      rw [hgy]; simp only []; rw [hg]
+    rw [hnil] at hmem; simp at hmem
+
+/-- … **and to nothing else**: a tensor outside the walk keeps its whole context (gradient, flags, edges) -/
+theorem bp_touches_nothing_else (bm : BMode) (H : Heap α) (root : Nat) (hdag : HeapDag H) (n : Nat)
+    (hn : n ∉ backwardOrder H root) : (backprop bm H root).heap.ctx n = H.ctx n :=
+  backprop_footprint bm H root hdag n hn
+
+/-- **A result computed from a spent tensor is untracked and cannot reach the old graph**: after the walk, any
+    one-operand operation on a member of the walk gets the isolated spent context — no back edge at all -/
+theorem spent_results_isolated (bm : BMode) (H : Heap α) (root : Nat) (htr : H.tracked root = true) (n : Nat)
+    (hn : n ∈ backwardOrder H root) (hlt : n < H.size) (edges : List (Edge α)) :
+    mkCtx (backprop bm H root).heap [n] edges = dirtyCtx := by
+  have := bp_marks_spent bm H root htr n hn hlt
+  unfold mkCtx
+  simp [this]
 
 end
 
